@@ -139,7 +139,7 @@ def check_equiv(chk, pid, sess, phi, bdd_str, name, signature='semantics', timeo
                        {'formula': S.show(phi), 'instance': sess.inst.name, 'k': sess.k, 'bdd_nodes': dec.bdd_size(bdd_str), 'query': 'exists colour,state,aux: unit & (result != semantics)', 'verdict': 'unsat'})
         return True
     if v.status == 'sat': confirm(chk, pid, sess, phi, bdd_str, v.model, name, signature, self_loops, rdec=rdec)
-    else: chk.obligation(name, 'E-UNI', 'inconclusive', v.seconds)
+    else: chk.obligation(name, 'E-UNI', 'timeout', v.seconds)
     return False
 
 def check_inside_unit(chk, pid, sess, phi, bdd_str, name, signature='outside-unit', rdec=None):
@@ -158,7 +158,7 @@ def check_inside_unit(chk, pid, sess, phi, bdd_str, name, signature='outside-uni
             chk.violation(name, signature, {'instance': sess.inst.name, 'aeon': sess.inst.aeon, 'formula': S.show(phi), 'colour': colour, 'state': state},
                           f'{S.show(phi)} on instance {sess.inst.name}: the result contains state {state} for a colour outside the unit set (regulation constraints violated)')
         else: chk.obligation(name + ' (does not reproduce)', 'E-UNI', 'inconclusive')
-    else: chk.obligation(name, 'E-UNI', 'inconclusive', v.seconds)
+    else: chk.obligation(name, 'E-UNI', 'timeout', v.seconds)
     return False
 
 def run_plain_family(chk, pid, which, phis, k_extra=0, entries=('ext_dirty',), signature='semantics', check_unit=False, group=12):
